@@ -22,3 +22,6 @@ add("C15", "independent scanner/canonicaliser as oracle over exhaustively enumer
 add("C14", "round-trip monitor: independent convention encoders -> Grid(ds) autoparse -> compare with the spec and with the explicitly built Grid",
     "Random topologies are encoded into COMODO / SGRID attributes as the tables prescribe and must be parsed back exactly; "
     "operations on the parsed Grid must equal those on the explicit one.", "2/C14")
+add("C16", "history monitor with an executable shadow registry, compared behaviourally after every call, plus one-at-a-time replay differential",
+    "Every call of a generated registration history advances a small sequential model; after each call the real Grid is probed "
+    "at every slot; histories <=2 over a small pool are enumerated completely, longer ones sampled.", "2/C16")
